@@ -122,6 +122,17 @@ def msg(topic, q, m, ret=False, empty=False):
     return {"topic": topic, "q": q, "m": m, "ret": ret, "empty": empty}
 
 
+def multi(fn, seed, tier, reps):
+    """thorough tier: the seeded scenario generator run with several seeds (ids kept distinct)"""
+    out = []
+    for k in range(reps if tier == "thorough" else 1):
+        for sc in fn(seed + 7919 * k, tier):
+            sc = dict(sc)
+            sc["id"] = sc["id"] + 1000000 * k
+            out.append(sc)
+    return out
+
+
 # ---------------------------------------------------------------- running
 
 def run_scripts(run, scripts, tag, slow=1, timeout=900, kind="broker"):
